@@ -275,3 +275,18 @@ fn d19_final_mandatory_short_pdu() {
         match r { Ok((DecapStatus::CompletedPkt(p, md), c)) => { assert_eq!(c, n); assert_eq!(&p[..plen], &pdu[..]); assert_eq!(md.extensions(), &ext); assert_eq!(md.protocol_type(), 0x81); }, x => panic!("plen {} {:?}", plen, x) }
     }
 }
+
+#[test]
+fn d20_first_fragment_with_extension_storage_check() {
+    // a 30-byte PDU with one 4-byte optional extension, first fragment carrying 26 bytes,
+    // receiver storage of exactly 30 bytes: the PDU fits, the fragment must be accepted
+    let mut e = Encapsulator::new(DefaultCrc{});
+    let pdu: Vec<u8> = (0..30u8).collect();
+    let mut buf = vec![0u8; 45];
+    let ext = vec![Extension::new(0x301, &[0,0,0,0]).unwrap()];
+    let n = match e.encap_ext(&pdu, 2, EncapMetadata::new(0x800, l6()), &mut buf, ext) {
+        Ok(EncapStatus::FragmentedPkt(n, _)) => n as usize, x => panic!("{:?}", x) };
+    let mut d = mkdec(2, 30, &[30, 30]);
+    let r = d.decap(&buf[..n]);
+    assert!(matches!(r, Ok((DecapStatus::FragmentedPkt(_), _))), "{:?}", r);
+}
